@@ -746,7 +746,7 @@ func (w *World) checkFinalizeUnderFault(n *Node, b *DecidedBlock, r *abci.Respon
 			continue
 		}
 		switch f.Kind {
-		case "error", "invalid":
+		case "error", "invalid", "invalid-noerr":
 			w.violate("C09", "engine-fault-ignored", f.Call+"/"+f.Kind, "height %d node %d: the engine answered %s to %s while finalising and the block was committed anyway", b.Height, n.ID, f.Kind, f.Call)
 		default:
 			w.probe("finalize-tolerated-" + f.Kind)
